@@ -44,7 +44,7 @@ RULE = ('one case per (problem, labeling) forecast, per (good, consumption, epsi
         'that was compared with the reference optimum; corner solutions (some good at zero) are counted separately. '
         'distinct = distinct (part, configuration, parameter set, row, budget, draw, labeling | grid point | history) keys.')
 ASSUMPTIONS = [
-    'continuous domains are covered on finite grids only (4 value alphabets selected by VERIF_SEED, budgets, '
+    'continuous domains are covered on finite grids only (8 value alphabets selected by VERIF_SEED, budgets, '
     '{-1,0,1}^3 draws, 3 goods); utilities are strictly concave (0 < alpha < 1, gamma > 0, prices > 0) so the optimum '
     'is unique and the reference solver (own closed forms + bisection, plain Python) defines it',
     'the column of an epsilon vector that belongs to an alternative is the one given by the public map '
@@ -73,8 +73,8 @@ MU_SPEC = {'A': [('m_a', None)], 'B': [('m_b', None), ('m_x', 'x')], 'C': [('m_c
 def alphabet(seed: int) -> dict:
     """Numeric constants of one run.  VERIF_SEED only selects the constants; the run is exhaustive over
     the space they span.  Dyadic shifts keep the arithmetic exact where possible."""
-    s = int(seed) % 4
-    d = 0.125 * s
+    s = int(seed) % 8
+    d = 0.125 * (s % 4) + 0.0625 * (s // 4)   # seeds 0..7 -> eight different dyadic shifts
     D = {  # defaults = initial values of the Beta objects
         'b_a': 0.5 + d, 'b_x': 0.25, 'b_b': -3.0 - d, 'b_z': 0.5 + d / 2,
         'g_a': 1.0 + d, 'g_b': 2.0, 'g_c': 0.5 + d / 2,
